@@ -221,8 +221,8 @@ def _judge_subset(obs, spec, pm, x, tag):
         j2 = judge_gradient(obs, spec, cfg, gres, fvals, pvals, path + ":" + tag, judge_merged_values=False)
         judged = judged or j1 or j2
         # differential: really remove the failed realizations (no filters: windows/percentiles refer to the ensemble size)
-        if path == "combined" and not spec.get("filters") and failed_g.any() and not failed_g.all() and gres.gradients is not None \
-                and np.array_equal(failed_f, failed_g):
+        same_level = np.array_equal(failed_f, failed_g)      # (gradient-only failures: only the gradients can be compared)
+        if path == "combined" and not spec.get("filters") and failed_g.any() and not failed_g.all() and gres.gradients is not None:
             keep = np.flatnonzero(~failed_g)
             if np.any(np.asarray(spec["rweights"])[keep] > 0):
                 rs = _reduced(spec, keep)
@@ -232,12 +232,14 @@ def _judge_subset(obs, spec, pm, x, tag):
                     f2 = g2 = None
                 if f2 is not None and f2.functions is not None and g2.gradients is not None and fres.functions is not None:
                     obs.count("differential_compared")
+                    if not same_level:
+                        obs.count("differential_compared_gradient_only_failures")
                     for name, A, B in (("functions.objectives", fres.functions.objectives, f2.functions.objectives),
                                        ("functions.constraints", fres.functions.constraints, f2.functions.constraints),
                                        ("functions.weighted", fres.functions.weighted_objective, f2.functions.weighted_objective),
                                        ("gradients.objectives", gres.gradients.objectives, g2.gradients.objectives),
                                        ("gradients.constraints", gres.gradients.constraints, g2.gradients.constraints)):
-                        if A is None:
+                        if A is None or (not same_level and name.startswith("functions")):
                             continue
                         if not np.allclose(A, B, rtol=1e-8, atol=1e-10, equal_nan=True):
                             obs.violation("differs_from_reduced_ensemble", field=name, full=A, reduced=B, failed=failed_g, tag=tag)
